@@ -721,7 +721,7 @@ func init() {
 			NotDecided:  []string{"LRU conformance as a property of arbitrary operation histories (needs the run-time order); Len() values"},
 			Assumptions: []string{"container/list semantics"},
 		},
-		Rules: []ruleFn{{"C14-PAIR", ruleCacheStruct("C14")}, {"C14-KEY", ruleCacheKey("C14-KEY")}, {"C14-LOCK", ruleCacheLock("C14-LOCK")}, {"C14-TOTAL", ruleC14Total}, {"C01-TIERS", ruleC01Tiers}},
+		Rules: []ruleFn{{"C14-PAIR", ruleCacheStruct("C14")}, {"C14-KEY", ruleCacheKey("C14-KEY")}, {"C14-LOCK", ruleCacheLock("C14-LOCK")}, {"C14-TOTAL", ruleC14Total}, {"C01-TIERS", ruleC01Tiers}, {"C03-EFF", ruleC03Eff}},
 	})
 }
 
